@@ -8,7 +8,8 @@ trailing empty members/EOF marker), every history (any length) of Read(n)/ReadBy
 go to a block start plus an offset up to the block's length.
 -/
 import Hts.Lemmas.ReaderProps
-import Hts.Lemmas.ReaderLTS
+import Hts.Lemmas.ReaderLTSTerm
+import Hts.Lemmas.ReaderLTSExact
 namespace Hts.Props.C02
 open Hts.Model.Bgzf Hts.Spec.Flat
 
@@ -102,76 +103,121 @@ theorem seek_begin_replays (F : File) (hwf : WF F) (r0 : Reader) (h0 : Reader.ne
     · rw [he2, he]
   · rw [hs2.last]
 
-/-! ### The read-ahead protocol (rd > 1), partial
+/-! ### The read-ahead protocol (rd > 1, no cache)
 
-`Hts.Model.ReadAhead` is the worker/consumer protocol of the cache-free reader as a transition system.  The
-full statements (all paths, including `Seek`'s redirects through `control`) are kept visible below as
-propositions; what is proved is the part for paths without `Seek` steps ("between redirects"): the consumer
-never sees an unexpected block, blocks are delivered in file order, decompressors are conserved, and a
-consumer waiting in `nextBlock` never dead-locks.  For the rest the schedule clause of C02 is carried by
-the correspondence check (rd 0/2/4, GOMAXPROCS 1/4/16, delayed underlying reader). -/
+`Hts.Model.ReadAhead` (Model/ReaderLTS.lean) is the worker/consumer protocol of the cache-free reader at HEAD
+as a transition system with an executable step function: the worker loop of `NewReader` (including "wait on
+`control` while next < 0"), `nextBlock` with its synchronous fall-back, all paths of `Seek`, `Close`.  Every
+member load may fail (`cfg.faults`, chosen by the label), so the statements hold for every pattern of I/O
+faults of the underlying reader, and without faults.  They are for **every** configuration with rd ≥ 2 and a
+file whose member sizes are positive (`Cfg.OK`), every consumer script (any sequence of nextBlock calls —
+i.e. of Read/ReadByte —, Seeks to any offset, valid or not, Close) and every interleaving of the two threads.
+The tie to the code is trace inclusion: the harness replays the member loads and API markers observed on the
+real reader against `next` (`c02.lts`). -/
 
-open Hts.Model.ReadAhead in
-/-- Full statement (not proved): the `panic("bgzf: unexpected block")` branch is unreachable on every path. -/
-def readahead_no_unexpected_block_full : Prop :=
-  ∀ (chain : Chain) (rd : Nat), 2 ≤ rd → ∀ s, Reach chain rd (fun _ => true) s → s.cons ≠ .panicked
+open Hts.Model Hts.Model.ReadAhead in
+/-- The `panic("bgzf: unexpected block")` branch of `nextBlock` is unreachable. -/
+theorem readahead_no_unexpected_block (cfg : Cfg) (hc : cfg.OK) (s : ReadAhead.State) (h : Reachable cfg s) :
+    s.cons ≠ .panicked :=
+  (inv_reachable hc h).nopanic
 
-open Hts.Model.ReadAhead in
-/-- Full statement (not proved): on every path, whenever the consumer is inside a call some thread can move. -/
-def readahead_deadlock_free_full : Prop :=
-  ∀ (chain : Chain) (rd : Nat), 2 ≤ rd → ∀ s, Reach chain rd (fun _ => true) s → s.cons ≠ .idle →
-    s.cons ≠ .panicked → ∃ l t, Step chain s l t
+open Hts.Model Hts.Model.ReadAhead in
+/-- No dead-lock: in every reachable state some thread can step, unless the consumer has run its whole script
+(or Close has returned).  With `cfg.faults` this is C09's reader side: no fault pattern makes a call hang. -/
+theorem readahead_deadlock_free (cfg : Cfg) (hc : cfg.OK) (s : ReadAhead.State) (h : Reachable cfg s) :
+    (∃ l e t, next cfg s l = some (e, t)) ∨ ApiDone s :=
+  inv_progress (inv_reachable hc h)
 
-open Hts.Model.ReadAhead in
-/-- Between redirects the consumer never reaches `panic("bgzf: unexpected block")`, for every file, every
-number of decompressors and every interleaving of worker and consumer. -/
-theorem readahead_no_unexpected_block_partial (chain : Chain) (rd : Nat) (s : St)
-    (h : Reach chain rd noSeek s) : s.cons ≠ .panicked := by
-  have hi := inv_reach h
-  rcases hi.cons with hc | ⟨i, hc, _, _⟩ <;> rw [hc] <;> simp
+open Hts.Model Hts.Model.ReadAhead in
+/-- Every API call returns: while the consumer is inside a call every step of either thread decreases the
+measure `mu`, so there is no infinite run inside a call, under any scheduler (no fairness needed); by
+`readahead_deadlock_free` the run cannot stop inside a call either. -/
+theorem readahead_call_terminates (cfg : Cfg) (hc : cfg.OK) (s t : ReadAhead.State) (l : Label) (e : Option Ev)
+    (h : Reachable cfg s) (hs : next cfg s l = some (e, t)) (hin : s.cons ≠ .idle) :
+    mu cfg t < mu cfg s :=
+  mu_decreases (inv_reachable hc h) hs hin
 
-open Hts.Model.ReadAhead in
-/-- Between redirects every block the consumer receives from `working` is the member of the file that
-starts at the base it expects (in-order delivery; no block is skipped, repeated or out of place). -/
-theorem readahead_in_order_partial (chain : Chain) (rd : Nat) (s t : St) (h : Reach chain rd noSeek s)
-    (hs : Step chain s .cRecv t) :
-    ∃ b rest, s.working = b :: rest ∧ s.cur.next = some b.base ∧ b.next = chain b.base ∧
-      t.cur = b ∧ t.cons = .idle ∧ t.working = rest := by
-  have hi := inv_reach h
-  cases hs with
-  | cRecv i b rest h1 h2 h3 =>
-    have hb : s.cur.next = some b.base ∧ b.next = chain b.base ∧
-        IsChain chain b.next (rest ++ s.worker.pending) (wnext s) := by
-      simpa [pipeline, h2, IsChain] using hi.chain_
-    refine ⟨b, rest, h2, hb.1, hb.2.1, ?_⟩
-    simp [hb.1]
+open Hts.Model Hts.Model.ReadAhead in
+/-- Decompressors are neither lost nor duplicated: idle + carrying a block + held by a thread = rd; `working`
+never exceeds its capacity (a send on it never blocks for lack of room when the sender holds one). -/
+theorem readahead_conservation (cfg : Cfg) (hc : cfg.OK) (s : ReadAhead.State) (h : Reachable cfg s) :
+    s.waiting + s.working.length + s.worker.holds + s.cons.holds = cfg.rd ∧ s.working.length ≤ cfg.rd :=
+  ⟨(inv_reachable hc h).count, by have := (inv_reachable hc h).count; omega⟩
 
-open Hts.Model.ReadAhead in
-/-- Decompressors are conserved: idle + carrying a block + held by a thread = rd. -/
-theorem readahead_conservation_partial (chain : Chain) (rd : Nat) (s : St) (h : Reach chain rd noSeek s) :
-    s.waiting + s.working.length + held s = rd ∧ s.working.length ≤ rd :=
-  ⟨(inv_reach h).count, by have := (inv_reach h).count; omega⟩
+open Hts.Model Hts.Model.ReadAhead in
+/-- In-order delivery: `nextBlock` asks for the base that follows the current block; what a completed
+`nextBlock` or `Seek` installs as the current block is the result of a load at exactly the offset asked for —
+the member there (`next = chain base`) or a failed load — whichever path delivered it (read-ahead, a block
+found in `working`, the synchronous fetch); the call reports success iff the block is a good one. -/
+theorem readahead_in_order (cfg : Cfg) (hc : cfg.OK) (s t : ReadAhead.State) (l : Label) (e : Option Ev)
+    (h : Reachable cfg s) (hs : next cfg s l = some (e, t)) :
+    (∀ b, s.cons = .idle → t.cons = .scan b 0 → s.cur.next = some b) ∧
+    (∀ b i ok, s.cons = .scan b i → t.cons = .ret ok →
+      t.cur.base = some b ∧ WFBlk cfg.chain t.cur ∧ ok = good t.cur) ∧
+    (∀ w ok, s.cons = .send w → t.cons = .ret ok →
+      t.cur.base = some w ∧ WFBlk cfg.chain t.cur ∧ ok = good t.cur) := by
+  have hi := inv_reachable hc h
+  have hit := inv_next hi hs
+  refine ⟨?_, ?_, ?_⟩
+  · intro b hidle hscan
+    cases l with
+    | wk f => have := (wk_frame hs).1; rw [hidle, hscan] at this; cases this
+    | api c f =>
+      simp only [next, apiStep, hidle] at hs
+      step_cases hs <;> simp_all
+  · intro b i ok hscan hret
+    cases l with
+    | wk f => have := (wk_frame hs).1; rw [hscan, hret] at this; cases this
+    | api c f =>
+      simp only [next, apiStep, hscan] at hs
+      step_cases hs <;> simp_all
+      exact hit.wfCur
+  · intro w ok hsend hret
+    cases l with
+    | wk f => have := (wk_frame hs).1; rw [hsend, hret] at this; cases this
+    | api c f =>
+      have hat := hi.atSend w hsend
+      simp only [next, apiStep, hsend] at hs
+      step_cases hs <;> simp_all
+      exact hi.wfCur
 
-open Hts.Model.ReadAhead in
-/-- Between redirects a consumer waiting in `nextBlock` is never stuck: the block it waits for is in
-`working`, or the worker can take a decompressor, read, or send. -/
-theorem readahead_deadlock_free_partial (chain : Chain) (rd : Nat) (hrd : 1 ≤ rd) (s : St)
-    (h : Reach chain rd noSeek s) (i : Nat) (hc : s.cons = .scan i) :
-    ∃ l t, noSeek l = true ∧ Step chain s l t :=
-  scan_can_step hrd (inv_reach h) i hc
+open Hts.Model Hts.Model.ReadAhead in
+/-- Read-ahead refines the sequential reader: without I/O faults, on every path, the block a completed
+`nextBlock` installs is `⟨e, chain e⟩` for `e` the base following the previous current block, and the block a
+completed (non-trivial) `Seek(off)` installs is `⟨off, chain off⟩` — exactly what the rd = 1 reader loads
+synchronously (`Block.load` of `Hts.Model.Bgzf`), whatever the interleaving and however many stale blocks were
+in flight. -/
+theorem readahead_refines_sequential (cfg : Cfg) (hc : cfg.OK) (hf : cfg.faults = false)
+    (s t : ReadAhead.State) (l : Label) (e : Option Ev) (h : Reachable cfg s) (hs : next cfg s l = some (e, t)) :
+    (∀ b i ok, s.cons = .scan b i → t.cons = .ret ok → t.cur = ⟨some b, cfg.chain b⟩) ∧
+    (∀ w ok, s.cons = .send w → t.cons = .ret ok → t.cur = ⟨some w, cfg.chain w⟩) := by
+  have hord := readahead_in_order cfg hc s t l e h hs
+  have hex := (exact_reachable hf (Reachable.step h ⟨l, e, hs⟩)).cur
+  have key : ∀ b, t.cur.base = some b → t.cur = ⟨some b, cfg.chain b⟩ := by
+    intro b hb
+    have : t.cur.next = cfg.chain b := by simpa [Exact, hb] using hex
+    cases hcur : t.cur with
+    | mk base nx => rw [hcur] at hb this; simp only at hb this; rw [hb, this]
+  exact ⟨fun b i ok h1 h2 => key b (hord.2.1 b i ok h1 h2).1, fun w ok h1 h2 => key w (hord.2.2 w ok h1 h2).1⟩
 
-open Hts.Model.ReadAhead in
-/-- Non-vacuity: a three-member file, rd = 2; the worker reads ahead and the consumer receives the block. -/
-example : ∃ s, Reach (fun b => if b < 90 then some (b + 30) else none) 2 noSeek s ∧
-    s.cur = ⟨30, some 60⟩ ∧ s.cons = .idle := by
-  let chain : Chain := fun b => if b < 90 then some (b + 30) else none
-  have r0 : Reach chain 2 noSeek (init chain 2) := .init
-  have r1 := Reach.step _ _ _ r0 (rfl : noSeek .wTake = true) (Step.wTake _ _ rfl (by decide))
-  have r2 := Reach.step _ _ _ r1 (rfl : noSeek .wRead = true) (Step.wRead _ 30 rfl rfl)
-  have r3 := Reach.step _ _ _ r2 (rfl : noSeek .wPush = true) (Step.wPush _ _ rfl (by decide))
-  have r4 := Reach.step _ _ _ r3 (rfl : noSeek .cNext = true) (Step.cNext _ 30 rfl rfl)
-  have r5 := Reach.step _ _ _ r4 (rfl : noSeek .cRecv = true) (Step.cRecv _ 0 ⟨30, some 60⟩ [] rfl rfl (by decide))
-  exact ⟨_, r5, rfl, rfl⟩
+open Hts.Model Hts.Model.ReadAhead in
+/-- After `Close` has returned the worker goroutine has returned. -/
+theorem reader_no_leak (cfg : Cfg) (hc : cfg.OK) (s : ReadAhead.State) (h : Reachable cfg s) (hcl : s.cons = .closed) :
+    ∃ held, s.worker = .exited held :=
+  (inv_reachable hc h).closed hcl
+
+open Hts.Model Hts.Model.ReadAhead in
+/-- Non-vacuity: three members, rd = 2; read ahead, Seek back to the first member while stale blocks are in
+flight (synchronous path), nextBlock skips a stale block, Close; the consumer ends in `closed`. -/
+example :
+    let cfg : Cfg := ⟨2, fun b => if b < 90 ∧ b % 30 = 0 then some (b + 30) else none, [.next, .seek 0, .next, .close], false⟩
+    (runLabels cfg (init cfg)
+      [.wk false, .wk false, .wk false, .wk false, .wk false, .wk false, .wk false, .wk false,
+       .api false false, .api false false, .wk false, .wk false, .wk false, .wk false, .api false false, .api false false,
+       .api true false, .api false false, .api false false, .api false false, .wk false, .wk false, .wk false, .wk false,
+       .api false false, .api false false, .api false false, .api false false, .api false false, .api false false, .wk false, .wk false,
+       .wk false, .wk false, .api false false, .api false false, .api false false, .wk false, .api false false]).map (·.cons) = some .closed := by
+  decide
 
 /-! ### Non-vacuity: the hypotheses are satisfiable by a file with empty members in the middle and at the
 end and by a history that seeks, crosses block ends, hits the end of the data and toggles Blocked mode. -/
